@@ -28,7 +28,9 @@ Failing(e) ==
     (IF ~ok THEN
        \* an overflow panic of a small counter type is legitimate only if the stream total overflows
        Cl(P(e, "C02.panicOnlyOnOverflow"),
-          CMaxP > 0 /\ ((e.op.name = "add" /\ Tot(g) + e.op.n > CMaxP) \/ (e.op.name = "merge" /\ Tot(g) + Tot(e.ghost_other) > CMaxP)))
+          CMaxP > 0 /\ ((e.op.name = "add" /\ Tot(g) + e.op.n > CMaxP) \/ (e.op.name = "merge" /\ Tot(g) + Tot(e.ghost_other) > CMaxP))) \cup
+       \* a refused (overflowing) add or merge must not take away anything that was counted before it
+       (IF Has(e, "q_panic") THEN Cl(P(e, "C02.neverUnderestimates (after a refused overflowing call)"), \A k \in Keys : e.q_panic[k] >= g[k]) ELSE {})
      ELSE
        Cl(P(e, "C02.neverUnderestimates"), \A k \in Keys : e.q_post[k] >= gp[k]) \cup
        Cl(P(e, "C02.neverExceedsTotal"), \A k \in Keys : e.q_post[k] <= Tot(gp)) \cup
